@@ -7,8 +7,9 @@ enqueue jobs or terminate the pool.
 namespace TlxVerif.C10
 set_option linter.unusedSimpArgs false
 
-/-- job bodies call only `enqueue` and `terminate` -/
-def JobsOk (cfg : Cfg) : Prop := ∀ code a, a ∈ cfg.prog code → (∃ c, a = .enq c) ∨ a = .term
+/-- job bodies only enqueue jobs, terminate the pool, read `done()` / `idle()`, or throw -/
+def JobsOk (cfg : Cfg) : Prop :=
+  ∀ code a, a ∈ cfg.prog code → (∃ c, a = .enq c) ∨ a = .term ∨ a = .obsDone ∨ a = .obsIdle ∨ a = .throw
 
 /-- roles and the size of the thread table never change -/
 theorem role_frame {cfg : Cfg} {s : State} {t c : Nat} {o} (h : step cfg s t c = some o) :
@@ -113,6 +114,8 @@ def nfF : Pc → Bool
 @[simp] theorem nfJ_call_unlock (k : Nat) : nfJ (.call k .unlock) = false := rfl
 @[simp] theorem nfF_call_unlock (k : Nat) : nfF (.call k .unlock) = false := rfl
 
+@[simp] theorem nfJ_wInit (i : Nat) : nfJ (.wInit i) = false := rfl
+@[simp] theorem nfF_wInit (i : Nat) : nfF (.wInit i) = false := rfl
 @[simp] theorem nfJ_mainJoinPc (cfg : Cfg) : nfJ (mainJoinPc cfg) = false := by
   rcases mainJoinPc_cases cfg with h | h <;> simp [h]
 @[simp] theorem nfJ_mainScriptPc (cfg : Cfg) : nfJ (mainScriptPc cfg) = false := by
@@ -440,6 +443,7 @@ def mainOkP (cfg : Cfg) (s : State) : Pc → Prop
 @[simp] theorem mainOkP_wRelock (cfg : Cfg) (s : State) : mainOkP cfg s .wRelock = False := rfl
 @[simp] theorem mainOkP_wNotify (cfg : Cfg) (s : State) : mainOkP cfg s .wNotify = False := rfl
 @[simp] theorem mainOkP_wExitUnlock (cfg : Cfg) (s : State) : mainOkP cfg s .wExitUnlock = False := rfl
+@[simp] theorem mainOkP_wInit (cfg : Cfg) (s : State) (i : Nat) : mainOkP cfg s (.wInit i) = False := rfl
 @[simp] theorem mainOkP_start (cfg : Cfg) (s : State) : mainOkP cfg s .start = (s.spawned = 0) := rfl
 @[simp] theorem mainOkP_mCtor (cfg : Cfg) (s : State) (i : Nat) : mainOkP cfg s (.mCtor i) = (s.spawned = i ∧ i < cfg.nworkers) := rfl
 @[simp] theorem mainOkP_mSpawn (cfg : Cfg) (s : State) (i : Nat) : mainOkP cfg s (.mSpawn i) = (s.spawned = cfg.nworkers + i ∧ i < nclients cfg) := rfl
@@ -714,12 +718,6 @@ def CW (cfg : Cfg) (s : State) : Prop :=
   ∀ c k a, ((getT s.thr c).pc = .call k .wait ∨ ((getT s.thr c).pc = .call k .waiting ∧ c ∈ s.wF)) →
     (script cfg (getT s.thr c))[k]? = some a → blockedOk s a
 
-/-- a step does not touch the records of other threads -/
-theorem other_frame {cfg : Cfg} {s : State} {t c : Nat} {o} (h : step cfg s t c = some o) (u : Nat) (hut : t ≠ u) :
-    getT o.st.thr u = getT s.thr u := by
-  pool_step_cases h
-  all_goals (simp only [setThr_thr, getT_set]; simp [hut])
-
 /-- the wait set of `cv_finished_` only grows by the acting thread -/
 theorem wF_sub {cfg : Cfg} {s : State} {t c : Nat} {o} (h : step cfg s t c = some o) (u : Nat) (hu : u ∈ o.st.wF) :
     u ∈ s.wF ∨ u = t := by
@@ -737,6 +735,9 @@ theorem blockedOk_step {cfg : Cfg} {s : State} {t c : Nat} {o} (h : step cfg s t
   cases a with
   | enq n => left; trivial
   | term => left; trivial
+  | obsDone => left; trivial
+  | obsIdle => left; trivial
+  | throw => left; trivial
   | lue =>
     unfold blockedOk at hold ⊢
     pool_step_cases h
@@ -820,10 +821,20 @@ theorem cw_self {cfg : Cfg} {s : State} {t c : Nat} {o} (h : step cfg s t c = so
     (try simp only [script_mk_pc, script_endOfScript]))
   all_goals (first
     | (intro hpc; simp at hpc; done)
+    | (intro hpc; simp [predEntry] at hpc; done)
     | skip)
   all_goals (first
     | -- the mutex was (re-)acquired and the predicate of loop_until_empty is false: jobs are queued
       (intro hpc hsc
+       simp at hpc
+       obtain ⟨rfl, hpe⟩ := hpc
+       obtain ⟨_, hq⟩ := predEntry_wait hpe
+       have : a = .lue := by
+         have h1 := ‹(script cfg _)[_]? = some Act.lue›
+         rw [h1] at hsc; exact (Option.some.inj hsc).symm
+       subst this
+       exact Or.inl hq)
+    | (intro hpc hsc
        simp at hpc
        obtain ⟨rfl, hpe⟩ := hpc
        obtain ⟨rfl, hq⟩ := predEntry_wait hpe
@@ -862,17 +873,16 @@ theorem cw_self {cfg : Cfg} {s : State} {t c : Nat} {o} (h : step cfg s t c = so
 theorem worker_not_waiting {cfg : Cfg} (hj : JobsOk cfg) {s : State} (hb : InvB cfg s) {u k : Nat} {cp : CPc}
     (hr : (getT s.thr u).role = .worker) (hp : (getT s.thr u).pc = .call k cp) : cp ≠ .wait ∧ cp ≠ .waiting := by
   obtain ⟨a, ha, hok⟩ := callOk_call (hb.call u) hp
-  have hmem : a ∈ script cfg (getT s.thr u) := List.mem_of_getElem? ha
-  unfold script at hmem
+  have hmem : a ∈ fullScript cfg (getT s.thr u) := mem_script (List.mem_of_getElem? ha)
+  unfold fullScript at hmem
   rw [hr] at hmem
   simp only at hmem
   cases hjob : (getT s.thr u).job with
   | none => simp [hjob] at hmem
   | some j =>
     simp only [hjob] at hmem
-    rcases hj j.code a hmem with ⟨n, rfl⟩ | rfl
-    · constructor <;> (intro hc; subst hc; simp at hok)
-    · constructor <;> (intro hc; subst hc; simp at hok)
+    rcases hj j.code a hmem with ⟨n, rfl⟩ | rfl | rfl | rfl | rfl <;>
+      (constructor <;> (intro hc; subst hc; simp at hok))
 
 theorem cw_step {cfg : Cfg} (hj : JobsOk cfg) {s : State} {t c : Nat} {o} (h : step cfg s t c = some o)
     (hi : Idx cfg s) (hb : InvB cfg s) (hw : InvW cfg s) (hm : mainOk cfg s) (hcw : CW cfg s) : CW cfg o.st := by
@@ -1052,7 +1062,11 @@ theorem enabled_eq (cfg : Cfg) (s : State) (t : Nat) (hlt : t < s.thr.length) :
       match (getT s.thr t).pc with
       | .finished => false
       | .start => decide (t ≤ s.spawned)
-      | .wLock | .wRelock | .mDLock | .call _ .lock => s.owner.isNone
+      | .wLock | .wRelock | .mDLock => s.owner.isNone
+      | .call k .lock =>
+        match (script cfg (getT s.thr t))[k]? with
+        | some .obsDone | some .obsIdle => true
+        | _ => s.owner.isNone
       | .wWaiting => s.owner.isNone && !s.wJ.contains t
       | .call _ .waiting => s.owner.isNone && !s.wF.contains t
       | .mJoinC i => pcOf s (clientTid cfg i) == .finished
@@ -1094,7 +1108,8 @@ theorem rest_thread {cfg : Cfg} {s : State} (hr : AtRest cfg s) (ho : s.owner = 
   · exact hr'
   · rename_i k cp
     cases cp <;> simp [ho] at hr' ⊢
-    exact hr'
+    · split at hr' <;> simp at hr'
+    · exact hr'
 
 
 /-- run a list of (thread, draw) choices; `none` if some chosen thread cannot step -/
@@ -1216,6 +1231,26 @@ theorem enabled_step {cfg : Cfg} {s : State} (h : Reachable cfg s) {t : Nat} (c 
     obtain ⟨a, ha, hok⟩ := hcall
     simp only [ha]
     cases cp <;> cases a <;> simp at hok he ⊢ <;> (try (repeat' split)) <;> simp_all
+    all_goals (exact script_ne_throw ‹_›)
+
+
+/-! ### jobs that throw -/
+
+/-- jobs that threw are recorded as finished -/
+theorem thrown_step {cfg : Cfg} {s : State} {t c : Nat} {o} (h : step cfg s t c = some o)
+    (hi : ∀ id, id ∈ s.thrown → id ∈ s.finished) : ∀ id, id ∈ o.st.thrown → id ∈ o.st.finished := by
+  pool_step_cases h
+  all_goals (first
+    | exact hi
+    | (intro id hid
+       simp only [endOfScriptThrown, endOfScriptFin] at hid ⊢
+       split at hid <;> (try split at hid) <;> simp_all <;>
+         (first | (rcases hid with hid | hid <;> simp_all) | skip)))
+
+theorem reachable_thrown {cfg : Cfg} {s : State} (h : Reachable cfg s) : ∀ id, id ∈ s.thrown → id ∈ s.finished := by
+  induction h with
+  | init => intro id hid; simp [init] at hid
+  | step _ hs ih => exact thrown_step hs ih
 
 
 end TlxVerif.C10
